@@ -113,9 +113,10 @@ class Reader(typing.Generic[parsmod.Source, parsmod.Feature, laymod.Native], met
         """
         if actual == expected:
             return data
+        kinds = {a.name: a.kind for a in actual}  # data is already in the expected order, the actual schema is not
         columns = {
-            e.name: c if e.kind.match(a.kind) else [e.kind.cast(v) for v in c]
-            for e, a, c in zip(expected, actual, data.to_columns())
+            e.name: c if e.kind.match(kinds[e.name]) else [e.kind.cast(v) for v in c]
+            for e, c in zip(expected, data.to_columns())
         }
         return laymod.Frame(pandas.DataFrame(columns))
 
